@@ -98,6 +98,8 @@ def empty_state(env: Optional[Dict[str, str]] = None) -> SymState:
     return SymState(frozenset((env or {}).items()), frozenset(), (), ())
 
 
+TERM_LIMIT = 6000
+
 _TOKEN_RE = __import__('re').compile(r'^NEW_\w+_L\d+$')
 
 
@@ -476,7 +478,13 @@ class SymClient(Client):
                 n._pnd_orig = True
         e2 = _Simplify().visit(_Subst(self, s).visit(e1))
         ast.fix_missing_locations(e2)
-        return ast.unparse(e2)
+        out = ast.unparse(e2)
+        if len(out) > TERM_LIMIT:
+            # a value built up through many substitutions (records collected in a loop, say): no rule reads a term of this size;
+            # what stands for it is an opaque name derived from it, equal for equal values
+            import hashlib
+            out = 'BIG_%s' % hashlib.sha1(out.encode()).hexdigest()[:12]
+        return out
 
     def fresh_token(self, call: ast.Call, s: SymState) -> Optional[str]:
         if self.fresh_of is None:
